@@ -182,7 +182,7 @@ def table(ctx, thorough):
     n = 0
     W, c0 = base_tensors(ctx.seed)
     nn_ = W.shape[0]
-    kinds = ["pure", "nn", "edit", "mixed", "sib", "msib", "editnn"]
+    kinds = ["pure", "nn", "edit", "mixed", "sib", "msib", "msib3", "editnn"]
     for kind in kinds:
         for fname, mathname in (("jac", "vec"), ("hess", "obj")):
             R = Repr(kind, W, c0)
